@@ -55,6 +55,21 @@ func classify(err error) string {
 	return "err"
 }
 
+// openDescriptors counts this process' open descriptors of the lock file.
+func openDescriptors(lockPath string) int {
+	ents, err := os.ReadDir("/proc/self/fd")
+	if err != nil {
+		return -1
+	}
+	n := 0
+	for _, e := range ents {
+		if t, err := os.Readlink("/proc/self/fd/" + e.Name()); err == nil && t == lockPath {
+			n++
+		}
+	}
+	return n
+}
+
 func childMain(id string) {
 	in := bufio.NewScanner(os.Stdin)
 	var dl *daemon.Lock
@@ -150,6 +165,7 @@ func childMain(id string) {
 					}
 				}
 			}
+			res += "/" + strconv.Itoa(openDescriptors(lockPath))
 			journal("r" + id + "=" + res)
 			fmt.Println(res)
 		}
@@ -251,6 +267,7 @@ func pickCmd(r *hx.Rand, ch *child) string {
 }
 
 func (ch *child) note(cmd, res string) {
+	res, _, _ = strings.Cut(res, "/")
 	switch cmd {
 	case "a":
 		if res != "refused" {
@@ -316,9 +333,6 @@ func runCase(c *hx.Ctx, p *pool, r *hx.Rand, dir string) (n int, events []string
 	// Process creation dominates the cost of a case (and is very expensive on a
 	// loaded host): most cases have no death, some one, few two.
 	deaths := []int{0, 0, 0, 0, 1, 1, 2}[r.Intn(7)]
-	if os.Getenv("VERIF_C28_NODEATH") != "" {
-		deaths = 0
-	}
 	for i := 0; i < steps; i++ {
 		live := alive()
 		if len(live) == 0 {
@@ -440,6 +454,7 @@ func oracle(n int, evs []string) string {
 			return fmt.Sprintf("class=journal malformed record %q", e)
 		}
 		body, res, _ := strings.Cut(e[1:], "=")
+		res, nfd, _ := strings.Cut(res, "/")
 		switch e[0] {
 		case 'c':
 			ps1, cmd, _ := strings.Cut(body, ":")
@@ -468,6 +483,13 @@ func oracle(n int, evs []string) string {
 			x := ps[p]
 			cmd := x.cmd
 			x.callAt = -1
+			// descriptors: a finished Release and a failed AcquireLock leave none open
+			if (cmd == "r" && res != "refused" || cmd == "a" && (res == "busy" || res == "err")) && nfd != "0" {
+				return fmt.Sprintf("class=descriptor-leak event %d: %s by process %d returned %s with %s descriptor(s) of the lock file still open", i, cmd, p, res, nfd)
+			}
+			if cmd == "a" && res == "ok" && nfd != "1" {
+				return fmt.Sprintf("class=descriptor-leak event %d: AcquireLock by process %d succeeded with %s descriptor(s) of the lock file open", i, p, nfd)
+			}
 			switch cmd {
 			case "a", "l":
 				switch res {
@@ -578,7 +600,7 @@ func main() {
 		emit := func(n int, evs []string) {
 			impl := implOf(evs)
 			key := ""
-			if strings.Contains(impl, "busy") {
+			if strings.Contains(impl, "busy/") {
 				key = impl
 			}
 			c.Case(strconv.Itoa(n)+" "+strings.Join(evs, " "), impl, oracle(n, evs), key)
@@ -602,7 +624,7 @@ func main() {
 		// Cases cost process creations and context switches, whose price depends
 		// on the load of the machine: run up to `cases`, but stop after `budget`
 		// once a minimum has been reached.
-		cases, minCases, budget := c.Size(1500, 30000), c.Size(60, 2000), time.Duration(c.Size(35, 600))*time.Second
+		cases, minCases, budget := c.Size(1500, 30000), c.Size(30, 2000), time.Duration(c.Size(35, 600))*time.Second
 		if v, err := strconv.Atoi(os.Getenv("VERIF_C28_CASES")); err == nil {
 			cases, minCases = v, v
 		}
